@@ -250,7 +250,7 @@ fn main() {
     let prop = Property {
         id: "C14",
         level: "exploration",
-        rule: "sender runs under polling schedules (fixed periods 1 us..10 s, jittered, bursts followed by gaps, time standing still; microsecond virtual clock) x start times before/at/after now x carousel delay/interval incl. 0 x target durations and deadlines incl. zero and past x object sizes incl. 0 and 1 symbol x trigger_transfer_at; judged on (instant, packet) pairs and Start/Stop instants: never before the start time or trigger timestamp, carousel gaps never shorter than configured, paced packet i never before start + i * target / ceil(L/E), and - for a single paced object under drain polling - each due packet emitted at the first poll at or after its due time; degenerate inputs must neither panic nor trip the step budget nor prevent the other objects of the session from being transmitted; a case is one run, non-trivial when at least one timing fact was judged; distinct = (schedule kind, timing configuration)",
+        rule: "sender runs under polling schedules (fixed periods 1 us..10 s, jittered, bursts followed by gaps, time standing still; microsecond virtual clock) x start times before/at/after now x carousel delay/interval incl. 0 x target durations and deadlines incl. zero and past x object sizes incl. 0 and 1 symbol x trigger_transfer_at, also pacing and carousel on the same object with one read per poll; judged on (instant, packet) pairs and Start/Stop instants: never before the start time or trigger timestamp, carousel gaps never shorter than configured, paced packet i never before start + i * target / ceil(L/E), and - for a single paced object under drain polling - each due packet emitted at the first poll at or after its due time; degenerate inputs must neither panic nor trip the step budget nor prevent the other objects of the session from being transmitted; a case is one run, non-trivial when at least one timing fact was judged; distinct = (schedule kind, timing configuration)",
         assumptions: vec![
             "lateness under coarse polling is never a violation; promptness is only judged for an object that is alone in its session under drain polling".into(),
             "time never goes backwards in generated schedules".into(),
@@ -346,6 +346,42 @@ fn main() {
             let opts = ScriptOpts { instants: inst, drain: true, max_packets: 3000, max_per_instant: 20_000, stop_when_empty: true, us: true };
             let mut cr = CaseResult::default();
             run_timing(&spec, &[o], &[tmg], &script, &opts, true, &[], &format!("b|{}|{}|{}|{}|{}", kind, target_us, nsym, parity, deadline), &mut cr);
+            cr
+        }));
+        // ---- pacing AND carousel on the same object, under coarse / irregular polling and with a limited number of reads
+        // per poll: the delay between two transfers counts from the end of the previous one as the caller saw it, not
+        // from where its pacing clock stood
+        let n3 = ctx.tier.pick(3000usize, 400_000);
+        gens.push(Gen::new("paced_carousel", n3, move |ctx, i| {
+            let mut rng = Rng::keyed(ctx.seed, "C14pc", 0, i as u64);
+            let kind = rng.below(24) as usize;
+            let target_us: u64 = *rng.pick(&[0u64, 1000, 250_000, 2_000_000, 4_000_000]);
+            let (inst, _) = schedule(&mut rng, kind, 30_000_000);
+            let mut spec = SenderSpec::new(OtiSpec::new(Fec::NoCode, 4096, 8, 0));
+            spec.full_fdt = rng.chance(1, 2);
+            spec.fdt_carousel = CarouselSpec::DelayMs(3_600_000);
+            let e = 16u16;
+            let nsym = *rng.pick(&[1usize, 4, 12]);
+            let mut o = ObjSpec::new(gen_bytes(&mut rng, nsym * e as usize), "file:///pc/0");
+            o.oti = Some(OtiSpec::new(Fec::NoCode, e, 5, 0));
+            o.max_transfer_count = rng.range(1, 2) as u32;
+            let car = if rng.chance(3, 4) { CarouselSpec::DelayMs(*rng.pick(&[100u64, 500, 3000, 8000])) } else { CarouselSpec::IntervalMs(*rng.pick(&[500u64, 5000])) };
+            o.carousel = Some(car);
+            let tmg = if rng.chance(1, 3) {
+                // a deadline: once it is past, every later cycle runs with a zero tick
+                o.deadline_ms = Some((target_us / 1000) as i64);
+                Timing { start_us: None, trigger: None, carousel: Some(car), target_us: None, deadline_us: Some((target_us / 1000 * 1000) as i128) }
+            } else {
+                o.target_ms = Some(target_us / 1000);
+                Timing { start_us: None, trigger: None, carousel: Some(car), target_us: Some(target_us / 1000 * 1000), deadline_us: None }
+            };
+            let script = vec![(When::Start, Op::Add(0)), (When::Start, Op::Publish)];
+            let mut opts = ScriptOpts { instants: inst, drain: rng.chance(1, 2), max_packets: 3000, max_per_instant: 20_000, stop_when_empty: false, us: true };
+            if !opts.drain {
+                opts.max_per_instant = 1;
+            }
+            let mut cr = CaseResult::default();
+            run_timing(&spec, &[o], &[tmg], &script, &opts, false, &[], &format!("pc|{}|{}|{}|{:?}", kind, target_us, nsym, car), &mut cr);
             cr
         }));
         // ---- degenerate inputs next to a plain object that must still be transmitted
